@@ -25,7 +25,9 @@ import (
 
 	"github.com/unification-com/mainchain/app"
 	undtypes "github.com/unification-com/mainchain/types"
+	beaconkeeper "github.com/unification-com/mainchain/x/beacon/keeper"
 	beacontypes "github.com/unification-com/mainchain/x/beacon/types"
+	wrkkeeper "github.com/unification-com/mainchain/x/wrkchain/keeper"
 	enttypes "github.com/unification-com/mainchain/x/enterprise/types"
 	streamtypes "github.com/unification-com/mainchain/x/stream/types"
 	wrktypes "github.com/unification-com/mainchain/x/wrkchain/types"
@@ -639,6 +641,62 @@ func parseRequest(line string) (thunk, error) {
 				_ = a.WrkchainKeeper.SetWrkChain(ctx, wrktypes.WrkChain{WrkchainId: 1, Moniker: "m", Name: "n", Owner: stored})
 			}
 			return boolTok(a.WrkchainKeeper.IsAuthorisedToRecord(ctx, 1, rec))
+		}, nil
+
+	case "ownermsg":
+		// ownermsg <wrk|bcn> <rec|buy> <stored owner> <A<j>>: the MESSAGE SERVER's record / storage-purchase handler, called with
+		// a message naming A<j> as owner, on a registration (id 1, limit 3, default parameters) whose stored Owner string is as
+		// in `ownergate`; 1 = the message took effect, 0 = it was refused
+		if err := need(f, 5); err != nil {
+			return nil, err
+		}
+		if (f[1] != "wrk" && f[1] != "bcn") || (f[2] != "rec" && f[2] != "buy") {
+			return nil, fmt.Errorf("ownermsg: want <wrk|bcn> <rec|buy>")
+		}
+		stored, present, err := storedOwner(f[3])
+		if err != nil {
+			return nil, err
+		}
+		if !strings.HasPrefix(f[4], "A") {
+			return nil, fmt.Errorf("ownermsg: recorder must be A<j>")
+		}
+		j, err := strconv.Atoi(f[4][1:])
+		if err != nil {
+			return nil, err
+		}
+		mod, op := f[1], f[2]
+		return func() string {
+			a, base := gateApp()
+			ctx, _ := base.CacheContext()
+			ctx = ctx.WithBlockTime(time.Unix(1700000000, 0))
+			who := accBech32(j)
+			var e error
+			if mod == "bcn" {
+				_ = a.BeaconKeeper.SetParams(ctx, beacontypes.DefaultParams())
+				if present {
+					_ = a.BeaconKeeper.SetBeacon(ctx, beacontypes.Beacon{BeaconId: 1, Moniker: "m", Name: "n", Owner: stored})
+					_ = a.BeaconKeeper.SetBeaconStorageLimit(ctx, 1, 3)
+				}
+				srv := beaconkeeper.NewMsgServerImpl(a.BeaconKeeper)
+				if op == "rec" {
+					_, e = srv.RecordBeaconTimestamp(sdk.WrapSDKContext(ctx), &beacontypes.MsgRecordBeaconTimestamp{BeaconId: 1, Hash: "h", SubmitTime: 1700000000, Owner: who})
+				} else {
+					_, e = srv.PurchaseBeaconStateStorage(sdk.WrapSDKContext(ctx), &beacontypes.MsgPurchaseBeaconStateStorage{BeaconId: 1, Number: 1, Owner: who})
+				}
+			} else {
+				_ = a.WrkchainKeeper.SetParams(ctx, wrktypes.DefaultParams())
+				if present {
+					_ = a.WrkchainKeeper.SetWrkChain(ctx, wrktypes.WrkChain{WrkchainId: 1, Moniker: "m", Name: "n", Owner: stored})
+					_ = a.WrkchainKeeper.SetWrkChainStorageLimit(ctx, 1, 3)
+				}
+				srv := wrkkeeper.NewMsgServerImpl(a.WrkchainKeeper)
+				if op == "rec" {
+					_, e = srv.RecordWrkChainBlock(sdk.WrapSDKContext(ctx), &wrktypes.MsgRecordWrkChainBlock{WrkchainId: 1, Height: 1, BlockHash: "a", Owner: who})
+				} else {
+					_, e = srv.PurchaseWrkChainStateStorage(sdk.WrapSDKContext(ctx), &wrktypes.MsgPurchaseWrkChainStateStorage{WrkchainId: 1, Number: 1, Owner: who})
+				}
+			}
+			return boolTok(e == nil)
 		}, nil
 
 	case "coins.lt", "coins.gt":
